@@ -505,7 +505,7 @@ fn replace_blob(bytes: &[u8], lenf: &Field, content: &[u8]) -> Vec<u8> {
 }
 
 /// number of coordinated edit kinds
-pub const COORDINATED_KINDS: usize = 8;
+pub const COORDINATED_KINDS: usize = 9;
 
 /// The `variant`-th flavour of coordinated edit `kind`; None when it does not apply to this proof.
 pub fn coordinated_fault(bytes: &[u8], lay: &Layout, kind: usize, variant: usize) -> Option<(String, Vec<u8>)> {
@@ -650,6 +650,57 @@ pub fn coordinated_fault(bytes: &[u8], lay: &Layout, kind: usize, variant: usize
                 out.extend(std::iter::repeat(3u8).take(l as usize));
             }
             Some((format!("coordinated: GKR proof announced with {l} bytes"), out))
+        },
+        8 => {
+            // trace metadata of another length with the length prefix adjusted: zero bytes
+            // appended (1, 2, 7, 8), the last byte dropped, a non-zero byte appended, all removed
+            let lenf = find(lay, "ctx.meta_len")?;
+            let cur = get(bytes, lenf.off, 2) as usize;
+            let start = lenf.off + 2;
+            let mut content = bytes[start..start + cur].to_vec();
+            let what = match variant % 8 {
+                0 => {
+                    content.push(0);
+                    "zero bytes appended: one"
+                },
+                1 => {
+                    content.extend_from_slice(&[0, 0]);
+                    "zero bytes appended: two"
+                },
+                2 => {
+                    content.extend_from_slice(&[0; 7]);
+                    "zero bytes appended: seven"
+                },
+                3 => {
+                    content.extend_from_slice(&[0; 8]);
+                    "zero bytes appended: eight"
+                },
+                4 => {
+                    content.pop()?;
+                    "shortened: last byte dropped"
+                },
+                5 => {
+                    content.push(1);
+                    "extended: a non-zero byte appended"
+                },
+                6 => {
+                    if content.is_empty() {
+                        return None;
+                    }
+                    content.clear();
+                    "removed: all bytes"
+                },
+                _ => {
+                    let l = content.len();
+                    if l == 0 {
+                        return None;
+                    }
+                    content[l - 1] = 0;
+                    content.push(0);
+                    "altered: last byte zeroed and a zero byte appended"
+                },
+            };
+            Some((format!("coordinated: trace metadata {what} ({} bytes, was {cur})", content.len()), replace_blob(bytes, lenf, &content)))
         },
         _ => {
             // remainder of another power-of-two length
